@@ -181,6 +181,54 @@ Fixpoint ext_rev (r acc : str) : str :=
   end.
 Definition ext (s : str) : str := ext_rev (rev s) [].
 
+(* filepath.Rel(base, targ): the components of the result, None = error.
+   Both paths are cleaned; they must agree on rootedness; the common leading
+   components are dropped; for every base component left one ".." is emitted
+   (an error if the first one left is itself ".."), then what is left of targ.
+   Quirk kept: a relative targ that cleans to "." contributes a "." component
+   when base components are left ("../."). *)
+Fixpoint strip_common (a b : list str) {struct a} : list str * list str :=
+  match a, b with
+  | x :: a', y :: b' => if str_eqb x y then strip_common a' b' else (a, b)
+  | _, _ => (a, b)
+  end.
+
+Definition rel (base targ : str) : option (list str) :=
+  if negb (Bool.eqb (is_abs base) (is_abs targ)) then None
+  else
+    let bt := strip_common (cc base) (cc targ) in
+    match fst bt with
+    | [] => Some (snd bt)
+    | b0 :: _ =>
+        if is_dd b0 then None
+        else Some (repeat dd (List.length (fst bt)) ++
+                   (match cc targ with [] => if is_abs targ then [] else [[dot]] | _ => snd bt end))
+    end.
+
+(* the printed result *)
+Definition rel_string (base targ : str) : option str :=
+  match rel base targ with
+  | None => None
+  | Some [] => Some [dot]
+  | Some l => Some (join_sl l)
+  end.
+
+(* err == nil && rel != ".." && !strings.HasPrefix(rel, "../") *)
+Definition within (base p : str) : bool :=
+  match rel base p with
+  | None => false
+  | Some [] => true
+  | Some (c :: _) => negb (is_dd c)
+  end.
+
+(* the same, and rel != "." as well *)
+Definition strictly_within (base p : str) : bool :=
+  match rel base p with
+  | None => false
+  | Some [] => false
+  | Some (c :: _) => negb (is_dd c)
+  end.
+
 (* ---- component-level relations ---------------------------------------- *)
 
 Definition cprefix (a b : list str) : Prop := exists r, b = a ++ r.
@@ -243,4 +291,5 @@ Definition clean_s (s : string) : string := ls (clean (la s)).
 Definition join_s (l : list string) : string := ls (join (map la l)).
 Definition base_s (s : string) : string := ls (base (la s)).
 Definition dir_s (s : string) : string := ls (dir (la s)).
+Definition rel_s (b t : string) : option string := option_map ls (rel_string (la b) (la t)).
 Definition ext_s (s : string) : string := ls (ext (la s)).
